@@ -406,9 +406,17 @@ static void run_cell(int kind, size_t len, int path, unsigned salt) {
   made_main = write_file(mainf, "m=main\n");
   mkdir_p(ddir);
   made_dropin = write_file(ddir + "/" + dropin, "d=dropin\n");
+  // a lower layer holds a drop-in of the same (long) name: it is masked as a whole, whatever its length
+  std::string lower = R + "/lower";
+  bool made_lower = false;
+  if (kind == K_DROPIN_NAME || kind == K_CONFIG_NAME || kind == K_SUFFIX) {
+    std::string lddir = lower + "/" + cname + "." + sfx + ".d";
+    mkdir_p(lddir);
+    made_lower = made_dropin && write_file(lddir + "/" + dropin, "d=lower\nonly_lower=1\n");
+  }
   bool made = made_main || made_dropin;
   (void)creatable;
-  std::string opt = "PARSING_DIRS=" + opt_extra + ldir;
+  std::string opt = "PARSING_DIRS=" + opt_extra + (made_lower ? lower + ":" : std::string()) + ldir;
   econf_file *kf = nullptr;
   econf_err e = econf_newKeyFile_with_options(&kf, opt.c_str());
   VF_CHECK(e == ECONF_SUCCESS && kf, "option-refused", "PARSING_DIRS item of " << opt.size() << " characters: rc=" << e);
@@ -443,9 +451,16 @@ static void run_cell(int kind, size_t len, int path, unsigned salt) {
            "main='" << s1 << "' dropin='" << s2 << "' (main file " << (made_main ? "exists" : "could not be created") << ", drop-in "
                     << (made_dropin ? "exists" : "could not be created") << ")");
   if (!(made_main && made_dropin)) g_case.tag("os_refused");
-  VF_CHECK(cblog.size() == (size_t)made_main + (size_t)made_dropin, "wrong-callback-sequence", "callback called " << cblog.size() << " times");
+  if (made_lower) {
+    char *v3 = nullptr;
+    econf_err e3 = econf_getStringValue(kf, nullptr, "only_lower", &v3);
+    free(v3);
+    VF_CHECK(e3 == ECONF_NOKEY, "masked-file-merged", "a drop-in of " << dropin.size() << " characters is not masked by its namesake in the higher layer (rc=" << e3 << ")");
+  }
+  VF_CHECK(cblog.size() == (size_t)made_main + (size_t)made_dropin + (size_t)made_lower, "wrong-callback-sequence", "callback called " << cblog.size() << " times");
   size_t ci = 0;
   if (made_main) SAME("callback path of the main file", collapse_slashes(cblog[ci++]), collapse_slashes(mainf));
+  if (made_lower) ci++;
   if (made_dropin) SAME("callback path of the drop-in", collapse_slashes(cblog[ci]), collapse_slashes(ddir + "/" + dropin));
 }
 
